@@ -1185,8 +1185,21 @@ func (*BigInt).ExponentiateVal
 // it was entered with, and every critical section keeps the bijection
 //    name in nameTable  ==>  idTable[nameTable[name]] == name
 //    0 <= i < len(idTable)  ==>  nameTable[idTable[i]] == i
-guarded SymbolTableStruct.nameTable by mutex
-guarded SymbolTableStruct.idTable by mutex
+guarded SymbolTableStruct.nameTable by mutex for C26 C11
+guarded SymbolTableStruct.idTable by mutex for C26 C11
+
+// constructor-time code: the table is not shared yet
+func NewSymbolTableComparer
+  unshared
+
+func SymbolTableWithNameTable
+  unshared
+
+func SymbolTableWithIdTable
+  unshared
+
+func NewSymbolTable
+  unshared
 
 spec fn lockOf(s *SymbolTableStruct) int = ghost(lockstate, &s.mutex)
 spec fn symOf(s *SymbolTableStruct, n string) Symbol = s.nameTable[n]
